@@ -235,17 +235,36 @@ Qed.
 
 Lemma rb_not_due k d t : (REPORT_PERIOD_US <=? u32 (t - last_comm d)) = false -> report_block k d t = d.
 Proof. intros H. unfold report_block. rewrite H. reflexivity. Qed.
-Lemma rb_due k d t :
-  (REPORT_PERIOD_US <=? u32 (t - last_comm d)) = true ->
+Lemma report_block_eq k d t :
   report_block k d t =
-  (if (TEN_MINUTES_US <? up_time (rb_report k d)) || (TEN_MINUTES_US <? down_time (rb_report k d))
-   then upd_times (set_relay k (rb_report k d) RELAY_OFF false false)
-                  (up_time (set_relay k (rb_report k d) RELAY_OFF false false)) (down_time (set_relay k (rb_report k d) RELAY_OFF false false))
-                  (last_time (set_relay k (rb_report k d) RELAY_OFF false false)) t
-   else upd_times (rb_report k d) (up_time (rb_report k d)) (down_time (rb_report k d)) (last_time (rb_report k d)) t).
+  if REPORT_PERIOD_US <=? u32 (t - last_comm d) then
+    let d1 := rb_report k d in
+    let d2 := if (TEN_MINUTES_US <? up_time d1) || (TEN_MINUTES_US <? down_time d1) then set_relay k d1 RELAY_OFF false false else d1 in
+    upd_times d2 (up_time d2) (down_time d2) (last_time d2) t
+  else d.
+Proof. reflexivity. Qed.
+Lemma rb_due_long k d t :
+  (REPORT_PERIOD_US <=? u32 (t - last_comm d)) = true ->
+  (TEN_MINUTES_US <? up_time d) || (TEN_MINUTES_US <? down_time d) = true ->
+  report_block k d t =
+  upd_times (set_relay k (rb_report k d) RELAY_OFF false false)
+            (up_time (set_relay k (rb_report k d) RELAY_OFF false false)) (down_time (set_relay k (rb_report k d) RELAY_OFF false false))
+            (last_time (set_relay k (rb_report k d) RELAY_OFF false false)) t.
 Proof.
-  intros H. unfold report_block. rewrite H. fold (rb_report k d).
-  destruct ((TEN_MINUTES_US <? up_time (rb_report k d)) || (TEN_MINUTES_US <? down_time (rb_report k d))); reflexivity.
+  intros H L. rewrite report_block_eq, H. cbv zeta.
+  destruct (rb_report_facts true k d (rb_report k d) eq_refl) as (_ & _ & _ & U & D & _).
+  assert (C : (TEN_MINUTES_US <? up_time (rb_report k d)) || (TEN_MINUTES_US <? down_time (rb_report k d)) = true) by (rewrite U, D; exact L).
+  rewrite C. reflexivity.
+Qed.
+Lemma rb_due_short k d t :
+  (REPORT_PERIOD_US <=? u32 (t - last_comm d)) = true ->
+  (TEN_MINUTES_US <? up_time d) || (TEN_MINUTES_US <? down_time d) = false ->
+  report_block k d t = upd_times (rb_report k d) (up_time (rb_report k d)) (down_time (rb_report k d)) (last_time (rb_report k d)) t.
+Proof.
+  intros H L. rewrite report_block_eq, H. cbv zeta.
+  destruct (rb_report_facts true k d (rb_report k d) eq_refl) as (_ & _ & _ & U & D & _).
+  assert (C : (TEN_MINUTES_US <? up_time (rb_report k d)) || (TEN_MINUTES_US <? down_time (rb_report k d)) = false) by (rewrite U, D; exact L).
+  rewrite C. reflexivity.
 Qed.
 
 Lemma rb_long_facts up k d1 t d2 d' :
@@ -264,9 +283,9 @@ Proof.
   split; [exists n; exact L|]. repeat split; auto.
 Qed.
 
-Lemma rb_short_facts up d1 t d' :
-  only up d1 -> d' = upd_times d1 (up_time d1) (down_time d1) (last_time d1) t ->
-  outs d' = outs d1 /\ up_time d' = up_time d1 /\ down_time d' = down_time d1 /\
+Lemma rb_short_facts up d1 t d' u w :
+  only up d1 -> d' = upd_times d1 u w (last_time d1) t ->
+  outs d' = outs d1 /\ up_time d' = u /\ down_time d' = w /\
   last_time d' = last_time d1 /\ now d' = now d1 /\ last_comm d' = t /\ only up d' /\ pos d' = pos d1 /\ tilt d' = tilt d1 /\ start_time d' = start_time d1.
 Proof.
   intros [P Q] ->. unfold only, powered in *. fld. repeat split; auto.
@@ -282,24 +301,46 @@ Proof.
   intros O E'.
   destruct (REPORT_PERIOD_US <=? u32 (t - last_comm d)) eqn:Edue.
   2:{ rewrite (rb_not_due k d t Edue) in E'. subst d'. split; [apply ext_refl|]. repeat split; auto; try apply O. intros [X _]; discriminate. }
-  rewrite (rb_due k d t Edue) in E'.
   pose proof (rb_report_facts up k d (rb_report k d) eq_refl) as F.
-  remember (rb_report k d) as d1 eqn:E1. clear E1.
-  destruct F as ([n1 [L1 NF1]] & Fu & Fd & F1 & F2 & F3 & F4 & F5 & F6 & F7 & F8).
-  assert (O1 : only up d1) by (destruct O as [P Q]; unfold only, powered in *; destruct up; cbn [negb] in *; rewrite Fu, Fd; auto).
-  destruct ((TEN_MINUTES_US <? up_time d1) || (TEN_MINUTES_US <? down_time d1)) eqn:Elong.
-  - destruct (rb_long_facts up k d1 t _ d' O1 eq_refl E') as ([n L] & A1 & A2 & A3 & A4 & A5 & A6).
+  destruct ((TEN_MINUTES_US <? up_time d) || (TEN_MINUTES_US <? down_time d)) eqn:Elong.
+  - rewrite (rb_due_long k d t Edue Elong) in E'.
+    remember (rb_report k d) as d1 eqn:E1. clear E1.
+    destruct F as ([n1 [L1 NF1]] & Fu & Fd & F1 & F2 & F3 & F4 & F5 & F6 & F7 & F8).
+    assert (O1 : only up d1) by (destruct O as [P Q]; unfold only, powered in *; destruct up; cbn [negb] in *; rewrite Fu, Fd; auto).
+    destruct (rb_long_facts up k d1 t _ d' O1 eq_refl E') as ([n L] & A1 & A2 & A3 & A4 & A5 & A6).
     split; [exists (n ++ n1); rewrite L, L1, app_assoc; reflexivity|].
     split; [congruence|]. split; [congruence|]. split; [congruence|]. split; [congruence|]. split; [exact A5|].
     intros NF. exfalso. exact (A6 NF).
-  - destruct (rb_short_facts up d1 t d' O1 E') as (B0 & B1 & B2 & B3 & B4 & B5 & B6 & B7 & B8 & B9).
+  - rewrite (rb_due_short k d t Edue Elong) in E'.
+    remember (rb_report k d) as d1 eqn:E1. clear E1.
+    destruct F as ([n1 [L1 NF1]] & Fu & Fd & F1 & F2 & F3 & F4 & F5 & F6 & F7 & F8).
+    assert (O1 : only up d1) by (destruct O as [P Q]; unfold only, powered in *; destruct up; cbn [negb] in *; rewrite Fu, Fd; auto).
+    destruct (rb_short_facts up d1 t d' _ _ O1 E') as (B0 & B1 & B2 & B3 & B4 & B5 & B6 & B7 & B8 & B9).
     split; [exists n1; rewrite B0; exact L1|].
     split; [congruence|]. split; [congruence|]. split; [congruence|]. split; [congruence|]. split; [exact B5|].
     intros NF. split; [exact B6|]. split; [congruence|]. split; [congruence|]. split; [congruence|].
-    intros [_ X]. rewrite F1, F2 in Elong. apply orb_false_iff in Elong. destruct Elong as [A B]. apply Z.ltb_ge in A. apply Z.ltb_ge in B. lia.
+    intros [_ X]. apply orb_false_iff in Elong. destruct Elong as [A B]. apply Z.ltb_ge in A. apply Z.ltb_ge in B. lia.
+Qed.
+
+Lemma report_block_facts_ext k d t : exists n, outs (report_block k d t) = n ++ outs d.
+Proof.
+  destruct (REPORT_PERIOD_US <=? u32 (t - last_comm d)) eqn:Edue.
+  2:{ rewrite (rb_not_due k d t Edue). exists []. reflexivity. }
+  destruct (rb_report_facts true k d (rb_report k d) eq_refl) as ([n1 [L1 _]] & _).
+  destruct ((TEN_MINUTES_US <? up_time d) || (TEN_MINUTES_US <? down_time d)) eqn:Elong.
+  - rewrite (rb_due_long k d t Edue Elong).
+    remember (rb_report k d) as d1 eqn:E1. clear E1.
+    destruct (sub_log true _ _ (sub_set_relay true k d1 RELAY_OFF false false)) as [n L].
+    remember (set_relay k d1 RELAY_OFF false false) as d2 eqn:E2. clear E2.
+    exists (n ++ n1). cbn [outs upd_times]. rewrite L, L1, app_assoc. reflexivity.
+  - rewrite (rb_due_short k d t Edue Elong). exists n1. cbn [outs upd_times]. exact L1.
 Qed.
 
 End Callback.
+
+(* the callback does not count the elapsed time: auto-calibration enabled, no power consumption seen yet, start stamp younger than 2 s *)
+Definition frozen_cb (k : kcfg) (d : dev) (im : bool) : bool :=
+  autocal_enabled k d && negb (detected d || im) && (u32 (counter k d - start_time d) <? POWER_DETECT_US).
 
 Section Callback2.
 Variable o : fpops.
@@ -419,4 +460,107 @@ Proof.
   split; [exact O7|]. split; [exact N7|]. split; [rewrite <- C6; unfold carry_of; destruct up; congruence|congruence].
 Qed.
 
-End Callback2.
+Lemma sub_carry up d d' : sub up d d' -> carry up d' = carry up d.
+Proof. intros S. unfold carry_of. destruct up; [exact (sub_ut _ _ _ S)|exact (sub_dt _ _ _ S)]. Qed.
+
+Lemma sub_cb_need up k d : sub up d (cb_need k d).
+Proof. unfold cb_need. subt. Qed.
+
+Lemma u32_self t : u32 (t - t) = 0.
+Proof. replace (t - t) with 0 by lia. reflexivity. Qed.
+
+(* One timer callback with exactly the output of direction `up` energised before and no falling edge of it logged:
+   the run-time counter of that direction grows by the elapsed time (or not at all while the power-consumption
+   detection holds the clock back), nothing is converted into position, the output is still on, and the
+   10-minute rule did not apply at this callback. *)
+Theorem timer_cb_only up k d im d' el :
+  wfk k -> only up d -> NT k up d -> 0 <= carry up d ->
+  el = (if frozen_cb k d im then 0 else u32 (counter k d - last_time d)) ->
+  carry up d + el < 4294967296 ->
+  d' = timer_cb o k d im ->
+  nofall up (outs d') ->
+  only up d' /\ NT k up d' /\ carry up d' = carry up d + el /\ last_time d' = counter k d /\ now d' = now d /\
+  last_comm d' = (if REPORT_PERIOD_US <=? u32 (counter k d - last_comm d) then counter k d else last_comm d) /\
+  ~ ((REPORT_PERIOD_US <=? u32 (counter k d - last_comm d)) = true /\ TEN_MINUTES_US < carry up d') /\
+  (start_time d <> 0 -> start_time d' = start_time d).
+Proof.
+  intros W O N Hc Eel Hsum E' NF.
+  set (t := counter k d) in *.
+  assert (Hel : 0 <= el) by (subst el; destruct (frozen_cb k d im); [lia|apply u32_range]).
+  (* stage 1 *)
+  destruct (cb_head_frame k d (cb_head k d) eq_refl) as (H1o & H1u & H1d & H1s & H1det & H1ut & H1dt & H1lt & H1lc & H1n & H1c & H1p).
+  remember (cb_head k d) as d1 eqn:E1.
+  assert (O1 : only up d1) by (destruct O as [P Q]; unfold only, powered in *; destruct up; cbn [negb] in *; rewrite H1u, H1d; auto).
+  assert (N1 : NT k up d1) by (exact (NT_transfer k up d d1 N H1p)).
+  (* stage 2 *)
+  destruct (cb_power_facts k d1 im (autocal_enabled k d) t _ eq_refl) as (H2o & H2u & H2d & H2ut & H2dt & H2lc & H2p & H2t & H2s & H2n & H2lt).
+  remember (cb_power k d1 im (autocal_enabled k d) t) as d2 eqn:E2.
+  assert (O2 : only up d2) by (destruct O1 as [P Q]; unfold only, powered in *; destruct up; cbn [negb] in *; rewrite H2u, H2d; auto).
+  assert (N2 : NT k up d2) by (apply (NT_transfer k up d1 d2 N1); left; auto).
+  assert (Hon : up_on d1 || down_on d1 = true).
+  { destruct O1 as [P _]. unfold powered in P. destruct up; rewrite P; [reflexivity|apply orb_true_r]. }
+  assert (L2 : u32 (t - last_time d2) = el).
+  { rewrite H2lt, Hon, H1det, H1s, H1lt. cbn [andb]. subst el. unfold frozen_cb. fold t.
+    destruct (autocal_enabled k d && negb (detected d || im) && (u32 (t - start_time d) <? POWER_DETECT_US)); [apply u32_self|reflexivity]. }
+  assert (C2 : carry up d2 = carry up d) by (unfold carry_of; destruct up; congruence).
+  (* stage 3 *)
+  unfold C10.Model.timer_cb in E'. fold t in E'.
+  assert (Emid : cb_mid o k d im = cb_account o k d2 im t (cb_fo k d) (cb_fc k d)) by (unfold cb_mid; fold t; rewrite <- E1, <- E2; reflexivity).
+  rewrite Emid in E'.
+  pose proof (cb_account_only up k d2 im t (cb_fo k d) (cb_fc k d) O2) as E3. rewrite L2 in E3.
+  remember (snd (fst (cb_account o k d2 im t (cb_fo k d) (cb_fc k d)))) as fo' eqn:Efo. clear Efo.
+  remember (snd (cb_account o k d2 im t (cb_fo k d) (cb_fc k d))) as fc' eqn:Efc. clear Efc.
+  remember (fst (fst (cb_account o k d2 im t (cb_fo k d) (cb_fc k d)))) as d3 eqn:Ed3. clear Ed3 Emid.
+  unfold acc_post, acc_pre in E3.
+  destruct (acc_add_facts up d2 el (acc_add d2 up el) O2 Hel ltac:(lia) ltac:(lia) eq_refl) as (Ao & AO & Alt & Alc & An & As & Ap & At & Ac).
+  remember (acc_add d2 up el) as d2a eqn:E2a. clear E2a.
+  assert (N2a : NT k up d2a) by (apply (NT_transfer k up d2 d2a N2); left; auto).
+  pose proof (acc_pre_sub up k d2a im _ eq_refl) as Sp.
+  remember (autocalibrate k (acc_cm k d2a up im) im) as p eqn:Ep. clear Ep.
+  remember (acc_full p (if up then true else false) (if up then cb_fo k d else cb_fc k d)) as f eqn:Ef.
+  assert (Ef' : acc_full p up (if up then cb_fo k d else cb_fc k d) = f) by (subst f; destruct up; reflexivity).
+  rewrite Ef' in E3. clear Ef Ef'.
+  pose proof (sub_carry up _ _ Sp) as Cp.
+  destruct (acc_post_facts up k (fst p) f im d3 W ltac:(lia) E3) as (X3 & P3 & L3l & L3c & L3n).
+  (* stage 4 *)
+  unfold cb_tail, stamp_last in E'.
+  pose proof (sub_trans up _ _ _ (sub_cb_need up k d3) (sub_task_processing up k (cb_need k d3) im fo' fc')) as S45.
+  remember (task_processing k (cb_need k d3) im fo' fc') as d5 eqn:E5. clear E5.
+  remember (report_block k d5 t) as d6 eqn:E6.
+  (* pull the "no falling edge" back through the stages *)
+  assert (NF6 : nofall up (outs d6)) by (subst d'; exact NF).
+  assert (Q : forall O5 : only up d5, ext d5 d6) by (intros O5; exact (proj1 (report_block_facts up k d5 t d6 O5 E6))).
+  (* forward *)
+  assert (NFp : nofall up (outs (fst p)) -> only up (fst p) /\ NT k up (fst p) /\ (start_time d2a <> 0 -> start_time (fst p) = start_time d2a))
+    by (intros H; exact (sub_bundle k up d2a (fst p) Sp H AO N2a)).
+  (* the log of d6 extends that of d5, d3, fst p: needs `only up d5`, which needs nofall at d5 ... resolve by cases on the log of d5 *)
+  destruct (report_block_facts_ext k d5 t) as [n6 L6]. rewrite <- E6 in L6.
+  assert (NF5 : nofall up (outs d5)) by (rewrite L6 in NF6; apply nofall_app in NF6; tauto).
+  assert (NF3 : nofall up (outs d3)) by (exact (ext_nofall up _ _ (sub_ext up _ _ S45) NF5)).
+  assert (NFfp : nofall up (outs (fst p))) by (exact (ext_nofall up _ _ X3 NF3)).
+  destruct (NFp NFfp) as (Op & Np & Sfp).
+  destruct (P3 NF3 Op Np) as (O3 & N3 & C3 & St3).
+  destruct (sub_bundle k up d3 d5 S45 NF5 O3 N3) as (O5 & N5 & St5).
+  destruct (report_block_facts up k d5 t d6 O5 E6) as (_ & R1 & R2 & R3 & R4 & R5 & R6).
+  destruct (R6 NF6) as (O6 & P6 & T6 & St6 & ND).
+  pose proof (sub_carry up _ _ S45) as C5.
+  assert (C6 : carry up d6 = carry up d + el).
+  { unfold carry_of in *. destruct up; congruence. }
+  subst d'. 
+  split; [destruct O6 as [A B]; split; unfold powered in *; destruct up; cbn [negb up_on down_on upd_times] in *; auto|].
+  split; [apply (NT_transfer k up d6); [apply (NT_transfer k up d5 d6 N5); left; auto|left; fld; auto]|].
+  split; [unfold carry_of in *; destruct up; fld; exact C6|].
+  pose proof (sub_now up _ _ S45) as Nw5. pose proof (sub_now up _ _ Sp) as Nwp.
+  split; [fld; reflexivity|]. split; [fld; congruence|].
+  split.
+  { fld. rewrite R5. rewrite (sub_lc up _ _ S45), L3c, (sub_lc up _ _ Sp), Alc, H2lc, H1lc. reflexivity. }
+  split.
+  { intros [D1 D2]. apply ND. rewrite (sub_lc up _ _ S45), L3c, (sub_lc up _ _ Sp), Alc, H2lc, H1lc. split; [exact D1|].
+    unfold carry_of in *. destruct up; fld; [left|right]; lia. }
+  intros S0. fld.
+  assert (Z2a : start_time d2a = start_time d) by congruence.
+  assert (Zp : start_time (fst p) = start_time d) by (rewrite Sfp; congruence).
+  assert (Z3 : start_time d3 = start_time d) by congruence.
+  assert (Z5 : start_time d5 = start_time d) by (rewrite St5; congruence).
+  congruence.
+Qed.
